@@ -637,7 +637,7 @@ func (f *Frame) enterLoop(l *Loop, st *State) *State {
 			}
 		}
 	}
-	f.applyModSet(ns, st, ms, "loop")
+	f.applyModSetFrame(ns, st, ms, f.entry.alloc)
 	// decreases snapshot & assume invariants
 	env2 := f.specEnv(ns)
 	env2.loop = l
